@@ -470,16 +470,17 @@ where
     /// event exists in the future event set.
     #[allow(clippy::should_implement_trait)]
     fn dispatch_event(&mut self) -> bool {
-        if self.future_event_set.is_empty() {
+        // Inspect the next event without removing it, so that a limit that applies
+        // leaves the event set (its order and its time) untouched.
+        let Some(next_time) = self.future_event_set.peek_time() else {
+            return true;
+        };
+
+        if self.limit.applies(self.itr + 1, next_time) {
             return true;
         }
 
         let (event, time) = self.future_event_set.fetch_next();
-
-        if self.limit.applies(self.itr + 1, time) {
-            self.future_event_set.add(time, event);
-            return true;
-        }
 
         self.itr += 1;
 
